@@ -14,7 +14,7 @@ RULE = ('tables from tables.rand_spec (every table replayed through a layout rec
         'histories via sort_order/transpose/copy) x {sort_order with EVERY permutation of each axis up to length 3 (quick) / 4 (thorough) '
         'and random permutations beyond, order given as list/tuple/array; orders that are not permutations (unknown id, repeated id, '
         'sub-list, empty); sort with natsort on natsort-tricky ids (a10/a2, mixed case, numeric strings, decimals, leading zeros) and '
-        'with other sorting functions; sort on id sets that tie up to digit formatting (S1/S01, 1/1.0) after EVERY prior permutation of '
+        'with other sorting functions; sort on id sets that tie up to digit formatting (S1/S01, 1/1.0) and on ids of the shape letters-digits-dot-letters next to siblings (P1.stool / P1b / P1.5 / P1.) after EVERY prior permutation of '
         'the axis, judged against an independent natural-order reference; permutation then the original order; transpose, transpose twice; copy; update_ids with renamings '
         'that lengthen/shorten/swap ids, partial with strict=False (incl. study-wide maps with unknown keys, at least as many entries as '
         'ids and retained ids longer than every new name), the empty mapping, unknown keys, non-injective and strict-incomplete '
@@ -35,7 +35,7 @@ SORTF = {
     'plain': lambda ids: sorted(ids),
     'bylen': lambda ids: sorted(ids, key=lambda s: (len(s), s)),
 }
-TRICKY = [['a10', 'a2', 'a1', 'A3', 'b', 'B1'], ['10', '2', '1', '01', '100'], ['s10', 's9', 's1', 'S10', 's01'],
+TRICKY = [['P1.stool', 'P1b', 'P1.5', 'P1.', 'P1.x2', 'P2'], ['a10', 'a2', 'a1', 'A3', 'b', 'B1'], ['10', '2', '1', '01', '100'], ['s10', 's9', 's1', 'S10', 's01'],
           ['x1.5', 'x1.10', 'x1.9', 'x2'], ['a', 'B', 'c', 'D'], ['1a', '1b', '10a', '2a', 'a1b2', 'a1b10'],
           ['é2', 'é10', 'e3'], ['', '0', 'a']]
 
@@ -43,6 +43,11 @@ TRICKY = [['a10', 'a2', 'a1', 'A3', 'b', 'B1'], ['10', '2', '1', '01', '100'], [
 # id sets whose natural-order chunks tie (digit formatting only): ties are broken by the text
 TIES = [['S1', 'S01', 'S10', 'S2'], ['1.0', '1', '2'], ['a01b', 'a1b', 'a1b2'], ['007', '7', '07', '70'],
         ['x1.50', 'x1.5', 'x01.5'], ['s2', 's02', 's002'], ['1', '01'], ['b1', 'B1', 'b01']]
+
+
+# a number is digits with an optional decimal part; a dot that is NOT followed by a digit belongs to the text that follows
+DOTS = [['P1.stool', 'P1b', 'P1.5', 'P1.'], ['P1.x2', 'P1.stool', 'P1x', 'P10'], ['a2.', 'a2.x', 'a2x', 'a2'],
+        ['7.', '7', '7.a', '7a'], ['s3.gut', 's3_gut', 's3gut', 's3.1gut']]
 
 
 # ---------------------------------------------------------------- implementation
@@ -545,7 +550,7 @@ def gen(rng, tier):
         yield {'kind': 'sort', 'spec': spec, 'axis': rng.choice(['observation', 'sample']),
                'sortf': rng.choice(['natsort', 'natsort', 'natsort', 'reverse', 'plain', 'bylen'])}
     # 3b. natural order on ids that differ in digit formatting only, after EVERY prior permutation of the axis
-    for ties in (TIES if not quick else rng.sample(TIES, 5) + [TIES[0]]):
+    for ties in (TIES + DOTS if not quick else rng.sample(TIES, 5) + [TIES[0]] + rng.sample(DOTS, 3) + [DOTS[0]]):
         for axis in ('observation', 'sample'):
             spec = _spec(rng, max_r=3, max_c=3, alphabet='short')
             nt = len(ties)
